@@ -9,6 +9,18 @@ T_COLS = ("t_k", "t_from_k", "t_to_k", "t_outlet_k", "deltat_k")
 FLOW_DEP = ("reynolds", "lambda")          # ill-defined on branches with (almost) no flow
 
 
+def stagnant_lift(*nets):
+    """True if a pump / compressor of one of the nets carries zero or reverse flow. Its lift is discontinuous there (curve /
+    ratio for mdot >= 0, none for reverse flow), so such a net has no unique solution: two calculations of it may
+    legitimately differ (known findings of C07 / C08) and are not compared."""
+    for n_ in nets:
+        for t_ in ("pump", "compressor"):
+            if t_ in n_ and len(n_[t_]) and "res_" + t_ in n_ and len(n_["res_" + t_]) and \
+                    (n_["res_" + t_].mdot_from_kg_per_s.dropna() <= 1e-9).any():
+                return True
+    return False
+
+
 def flow_scale(net):
     m = 0.0
     for t in net.keys():
